@@ -502,6 +502,345 @@ example :
     (t.collect (fun ty a => if ty = 1 then ⟨a + 8, ty⟩ else ⟨a, ty⟩) w (t.iter false)).items = [] := by
   decide
 
+/-! ## The provided `Iterator` methods (`nth`, `skip`, `step_by`, `take`, `last`, `count`, `fold`, `for_each`, `collect`, `size_hint`)
+
+`MetaIter` / `MetaIterMut` implement `next` only, so every other method is the default of
+`core::iter::Iterator`, defined from `next` (`Model/Meta.lean`: `advanceBy`, `nth`, `adNext`,
+`collectVia`, `lastVia`, `countVia`). Below, `L = ((firstOccs regs).drop i).filter w.present` is
+the list of registered types from the cursor `i` on that are present, in first-registration order,
+once each; `Usable` says that every registered present resource can be borrowed in the iterator's
+way (e.g. no conflicting guard alive), has an address-preserving cast and a well-formed flag. -/
+
+/-- hypothesis of the theorems about whole calls -/
+def Usable (cast : CastFn) (regs : List Nat) (w : MWorld) (excl : Bool) : Prop :=
+  ∀ ty ∈ regs, ∀ c, w.cell ty = some c →
+    (Shred.tryBorrow c.borrow excl).isSome ∧ (cast ty c.addr).addr = c.addr ∧ c.borrow ≠ .shared 0
+
+theorem C17_usable_drivable {cast : CastFn} {regs : List Nat} {w : MWorld} {excl : Bool}
+    (h : Usable cast regs w excl) : Drivable cast (({} : MetaTable).registerAll regs) excl w :=
+  fun ty hty c hc => h ty ((C17_registered_iff regs ty).mp hty) c hc
+
+/-- a world without live guards is usable by both iterators under every address-preserving cast -/
+theorem C17_usable_free (cast : CastFn) (regs : List Nat) (w : MWorld) (excl : Bool)
+    (hfree : ∀ ty c, w.cell ty = some c → c.borrow = .free)
+    (hcast : ∀ ty c, w.cell ty = some c → (cast ty c.addr).addr = c.addr) :
+    Usable cast regs w excl := by
+  intro ty _ c hc
+  rw [hfree ty c hc]
+  exact ⟨by cases excl <;> rfl, hcast ty c hc, by simp⟩
+
+/-- **`nth(0)` is `next`** -/
+theorem C17_nth_zero (cast : CastFn) (t : MetaTable) (w : MWorld) (it : MIter) :
+    t.nth cast w it 0 = t.next cast w it := rfl
+
+/-- **`nth(n)` is the `n`-th registered-and-present type from the cursor** (counting from 0), for
+`iter` and `iter_mut`, from any cursor position `i`, after any history of registrations: it yields
+the resource of `L[n]` (the pointer its own cast produced: the resource's address), only that cell
+is borrowed afterwards — the `n` items dropped on the way gave their borrows back — and the
+iterator goes on with `L[n+1..]`; if fewer than `n + 1` such types are left the answer is `None`,
+no cell is changed and nothing is left. -/
+theorem C17_nth_spec (cast : CastFn) (regs : List Nat) (w : MWorld) (i : Nat) (excl : Bool) (n : Nat)
+    (hok : Usable cast regs w excl) :
+    let t := ({} : MetaTable).registerAll regs
+    let L := ((firstOccs regs).drop i).filter w.present
+    match L[n]? with
+    | some ty =>
+      ∃ w' i', t.nth cast w ⟨i, excl⟩ n = (w', ⟨i', excl⟩, .item (cast ty (addrOf w ty))) ∧
+        (cast ty (addrOf w ty)).addr = addrOf w ty ∧ ty ∈ regs ∧ w.present ty = true ∧
+        ((firstOccs regs).drop i').filter w.present = L.drop (n + 1) ∧
+        ∀ k, w'.cell k = if k = ty then (w.cell k).map (borrowCell excl) else w.cell k
+    | none =>
+      ∃ w' i', t.nth cast w ⟨i, excl⟩ n = (w', ⟨i', excl⟩, .none) ∧
+        ((firstOccs regs).drop i').filter w.present = [] ∧ ∀ k, w'.cell k = w.cell k := by
+  intro t L
+  have hinv : MetaInv t := C17_inv regs
+  have htys : t.tys = firstOccs regs := C17_tys_first_registration regs
+  have hrem : ∀ j, remaining t w j = ((firstOccs regs).drop j).filter w.present := by
+    intro j; unfold remaining; rw [htys]
+  have hp := nth_pulled (cast := cast) hinv (C17_usable_drivable hok) (DInv.start t excl w i) n
+  unfold Pulled at hp
+  rw [hrem i] at hp
+  cases hd : L.drop n with
+  | nil =>
+    have hnone : L[n]? = none := List.getElem?_eq_none_iff.mpr (List.drop_eq_nil_iff.mp hd)
+    rw [hnone]
+    change (match L.drop n with | ty :: L' => _ | [] => _) at hp
+    rw [hd] at hp
+    obtain ⟨w', i', h1, h2, h3⟩ := hp
+    exact ⟨w', i', h1, by rw [← hrem i', h2], fun k => by rw [h3.cells k]; simp⟩
+  | cons ty L' =>
+    have hsome : L[n]? = some ty := by
+      have : (L.drop n)[0]? = some ty := by rw [hd]; rfl
+      rw [List.getElem?_drop] at this
+      simpa using this
+    have hL' : L.drop (n + 1) = L' := by
+      have : L.drop (n + 1) = (L.drop n).drop 1 := by rw [List.drop_drop]
+      rw [this, hd]; rfl
+    rw [hsome]
+    change (match L.drop n with | ty :: L' => _ | [] => _) at hp
+    rw [hd] at hp
+    obtain ⟨w', i', h1, _, h3, h4, _, h6⟩ := hp
+    have hmemL : ty ∈ L := List.mem_of_getElem? hsome
+    have hpres : w.present ty = true := (List.mem_filter.mp hmemL).2
+    have hreg : ty ∈ regs := (C17_registered_iff regs ty).mp h6
+    obtain ⟨c, hc⟩ := Option.isSome_iff_exists.mp (by simpa [MWorld.present] using hpres)
+    refine ⟨w', i', h1, ?_, hreg, hpres, by rw [← hrem i', h3, hL'], ?_⟩
+    · have := (hok ty hreg c hc).2.1
+      simp [addrOf, hc, this]
+    · intro k
+      rw [h4.cells k]
+      simp
+
+/-- the same for lawful casts on a world without live guards (the statement's setting): the item
+`nth(n)` yields has the address of the resource of the `n`-th registered-and-present type and the
+methods of that type -/
+theorem C17_nth_kth_present (regs : List Nat) (w : MWorld) (excl : Bool) (n : Nat)
+    (hfree : ∀ ty c, w.cell ty = some c → c.borrow = .free) :
+    let t := ({} : MetaTable).registerAll regs
+    (t.nth lawfulCast w (t.iter excl) n).2.2 =
+      match ((firstOccs regs).filter w.present)[n]? with
+      | some ty => .item ⟨addrOf w ty, ty⟩
+      | none => .none := by
+  intro t
+  have hok := C17_usable_free lawfulCast regs w excl hfree (fun _ _ _ => rfl)
+  have := C17_nth_spec lawfulCast regs w 0 excl n hok
+  simp only [List.drop_zero] at this
+  cases h : ((firstOccs regs).filter w.present)[n]? with
+  | none =>
+    rw [h] at this
+    obtain ⟨w', i', h1, _⟩ := this
+    show (t.nth lawfulCast w ⟨0, excl⟩ n).2.2 = _
+    rw [h1]
+  | some ty =>
+    rw [h] at this
+    obtain ⟨w', i', h1, _⟩ := this
+    show (t.nth lawfulCast w ⟨0, excl⟩ n).2.2 = _
+    rw [h1]; rfl
+
+/-- the default `nth` calls `next` for the elements it drops too: if the first registered present
+type from the cursor cannot be borrowed in the iterator's way, `nth(n)` panics there for every `n`
+and leaves the world as it was -/
+theorem C17_nth_conflict_panics (cast : CastFn) (regs : List Nat) (w : MWorld) (i : Nat)
+    (excl : Bool) (pre : List Nat) (ty : Nat) (rest : List Nat) (c : MCell) (n : Nat)
+    (hd : (({} : MetaTable).registerAll regs).tys.drop i = pre ++ ty :: rest)
+    (hpre : ∀ x ∈ pre, w.cell x = none) (hc : w.cell ty = some c)
+    (hconf : c.borrow = .excl ∨ (excl = true ∧ c.borrow ≠ .free)) :
+    (({} : MetaTable).registerAll regs).nth cast w ⟨i, excl⟩ n =
+      (w, ⟨i + pre.length + 1, excl⟩, .panic .borrowed) := by
+  have h := C17_next_conflict_panics cast regs w i excl pre ty rest c hd hpre hc hconf
+  cases n with
+  | zero => exact h
+  | succ n => simp only [MetaTable.nth, advanceBy, h]
+
+/-- **Whole iterations through an adapter** (`ad` = the iterator itself / `skip(n)` / `step_by(s)`
+/ `take(n)`, on the iterator or on `by_ref()` of it), consumed by `collect` / `for_each` / `fold`
+keeping every item: no panic; the items are, in order, the resources of `sel ad L` — all of `L`,
+`L` without its first `n`, the first and then every `s`-th of `L`, the first `n` of `L` —, each the
+pointer its own cast produced on the resource's address; exactly their cells carry one more borrow
+of the iterator's kind (the items dropped on the way gave theirs back); and the iterator is left
+with `adRest ad L` (nothing, or `L` without its first `n` after `take(n)`). -/
+theorem C17_collect_via_spec (cast : CastFn) (regs : List Nat) (w : MWorld) (i : Nat) (excl : Bool)
+    (ad : Adapter) (hok : Usable cast regs w excl) :
+    let t := ({} : MetaTable).registerAll regs
+    let L := ((firstOccs regs).drop i).filter w.present
+    let r := collectVia cast t excl (t.tys.length + 1) ad w i []
+    r.panic = none ∧
+    r.kept = (sel ad L).map (fun ty => (ty, cast ty (addrOf w ty))) ∧
+    (∀ e ∈ r.kept, e.2.addr = addrOf w e.1) ∧
+    r.seen = (sel ad L).length ∧
+    (∀ k, r.world.cell k = if k ∈ sel ad L then (w.cell k).map (borrowCell excl) else w.cell k) ∧
+    ((firstOccs regs).drop r.index).filter w.present = adRest ad L := by
+  intro t L r
+  have hinv : MetaInv t := C17_inv regs
+  have htys : t.tys = firstOccs regs := C17_tys_first_registration regs
+  have hrem : ∀ j, remaining t w j = ((firstOccs regs).drop j).filter w.present := by
+    intro j; unfold remaining; rw [htys]
+  have hlen : (remaining t w i).length < t.tys.length + 1 := by
+    unfold remaining
+    have h1 := List.length_filter_le w.present (t.tys.drop i)
+    have h2 : (t.tys.drop i).length ≤ t.tys.length := by simp
+    omega
+  obtain ⟨h1, h2, h3, h4, h5⟩ := collectVia_drive (cast := cast) hinv (C17_usable_drivable hok)
+    (t.tys.length + 1) ad w i [] (by simpa using DInv.start t excl w i) hlen
+  rw [hrem i] at h2 h5
+  have hkept : r.kept = (sel ad L).map (fun ty => (ty, cast ty (addrOf w ty))) := by
+    rw [show r.kept = _ from h2]; rfl
+  have hsub : ∀ ty ∈ sel ad L, ty ∈ L := by
+    intro ty hty
+    cases ad with
+    | plain => exact hty
+    | skip n => exact List.mem_of_mem_drop hty
+    | take n => exact List.mem_of_mem_take hty
+    | stepBy s first =>
+      have key : ∀ (c : Nat) (M : List Nat), ty ∈ stepSel s c M → ty ∈ M := by
+        intro c M
+        induction M generalizing c with
+        | nil => simp [stepSel]
+        | cons x xs ih =>
+          cases c with
+          | zero =>
+            simp only [stepSel, List.mem_cons]
+            rintro (h | h)
+            · exact Or.inl h
+            · exact Or.inr (ih s h)
+          | succ c =>
+            simp only [stepSel, List.mem_cons]
+            intro h; exact Or.inr (ih c h)
+      exact key _ L hty
+  refine ⟨h1, hkept, ?_, ?_, ?_, by rw [← hrem r.index]; exact h5⟩
+  · intro e he
+    rw [hkept] at he
+    obtain ⟨ty, hty, rfl⟩ := List.mem_map.mp he
+    have hmem := List.mem_filter.mp (hsub ty hty)
+    have hreg : ty ∈ regs := (mem_firstOccs regs ty).mp (List.mem_of_mem_drop hmem.1)
+    obtain ⟨c, hc⟩ := Option.isSome_iff_exists.mp (by simpa [MWorld.present] using hmem.2)
+    have := (hok ty hreg c hc).2.1
+    simp [addrOf, hc, this]
+  · rw [h3, hkept]; simp
+  · intro k
+    rw [h4.cells k, hkept]
+    simp [List.map_map, Function.comp_def]
+
+/-- `skip(n)`: `L` without its first `n` -/
+theorem C17_skip_spec (L : List Nat) (n : Nat) : sel (.skip n) L = L.drop n := rfl
+/-- `take(n)`: the first `n` of `L`; the iterator is left with the others -/
+theorem C17_take_spec (L : List Nat) (n : Nat) :
+    sel (.take n) L = L.take n ∧ adRest (.take n) L = L.drop n := ⟨rfl, rfl⟩
+/-- `step_by(s + 1)`: the first of `L`, then every `(s + 1)`-th -/
+theorem C17_step_by_spec (L : List Nat) (s : Nat) :
+    sel (.stepBy s true) L = stepSel s 0 L ∧
+    (∀ x xs, stepSel s 0 (x :: xs) = x :: stepSel s 0 (xs.drop s)) ∧ stepSel s 0 [] = [] := by
+  refine ⟨rfl, ?_, rfl⟩
+  intro x xs
+  show x :: stepSel s s xs = _
+  rw [stepSel_drop]
+
+/-- **`last()`** through an adapter: no panic; the item alive afterwards is the resource of the
+last type of `sel ad L` (`None` if there is none); only its cell is borrowed — every other item
+was dropped on the way. -/
+theorem C17_last_spec (cast : CastFn) (regs : List Nat) (w : MWorld) (i : Nat) (excl : Bool)
+    (ad : Adapter) (hok : Usable cast regs w excl) :
+    let t := ({} : MetaTable).registerAll regs
+    let L := ((firstOccs regs).drop i).filter w.present
+    let r := lastVia cast t excl (t.tys.length + 1) ad w i none 0
+    r.panic = none ∧
+    r.kept = ((sel ad L).getLast?.map (fun ty => (ty, cast ty (addrOf w ty)))).toList ∧
+    r.seen = (sel ad L).length ∧
+    (∀ k, r.world.cell k =
+      if (sel ad L).getLast? = some k then (w.cell k).map (borrowCell excl) else w.cell k) := by
+  intro t L r
+  have hinv : MetaInv t := C17_inv regs
+  have htys : t.tys = firstOccs regs := C17_tys_first_registration regs
+  have hrem : ∀ j, remaining t w j = ((firstOccs regs).drop j).filter w.present := by
+    intro j; unfold remaining; rw [htys]
+  have hlen : (remaining t w i).length < t.tys.length + 1 := by
+    unfold remaining
+    have h1 := List.length_filter_le w.present (t.tys.drop i)
+    have h2 : (t.tys.drop i).length ≤ t.tys.length := by simp
+    omega
+  obtain ⟨h1, h2, h3, h4, _⟩ := lastVia_drive (cast := cast) hinv (C17_usable_drivable hok)
+    (t.tys.length + 1) ad w i none 0 (by simpa using DInv.start t excl w i) hlen
+  rw [hrem i] at h2 h3
+  have hkept : r.kept = ((sel ad L).getLast?.map (fun ty => (ty, cast ty (addrOf w ty)))).toList := by
+    rw [show r.kept = _ from h2]
+    cases (sel ad L).getLast? <;> simp [itemOf]
+  refine ⟨h1, hkept, by simpa using h3, ?_⟩
+  intro k
+  rw [h4.cells k, hkept]
+  cases hl : (sel ad L).getLast? with
+  | none => simp
+  | some ty =>
+    by_cases hk : ty = k
+    · simp [hk]
+    · have hk' : k ≠ ty := fun e => hk e.symm
+      simp [hk, hk']
+
+/-- **`count()`** through an adapter: no panic; the number of types in `sel ad L`; no item is
+alive and every cell is as before. -/
+theorem C17_count_spec (cast : CastFn) (regs : List Nat) (w : MWorld) (i : Nat) (excl : Bool)
+    (ad : Adapter) (hok : Usable cast regs w excl) :
+    let t := ({} : MetaTable).registerAll regs
+    let L := ((firstOccs regs).drop i).filter w.present
+    let r := countVia cast t excl (t.tys.length + 1) ad w i 0
+    r.panic = none ∧ r.kept = [] ∧ r.seen = (sel ad L).length ∧ ∀ k, r.world.cell k = w.cell k := by
+  intro t L r
+  have hinv : MetaInv t := C17_inv regs
+  have htys : t.tys = firstOccs regs := C17_tys_first_registration regs
+  have hrem : ∀ j, remaining t w j = ((firstOccs regs).drop j).filter w.present := by
+    intro j; unfold remaining; rw [htys]
+  have hlen : (remaining t w i).length < t.tys.length + 1 := by
+    unfold remaining
+    have h1 := List.length_filter_le w.present (t.tys.drop i)
+    have h2 : (t.tys.drop i).length ≤ t.tys.length := by simp
+    omega
+  obtain ⟨h1, h2, h3, h4, _⟩ := countVia_drive (cast := cast) hinv (C17_usable_drivable hok)
+    (t.tys.length + 1) ad w i 0 (DInv.start t excl w i) hlen
+  rw [hrem i] at h3
+  exact ⟨h1, h2, by simpa using h3, fun k => by rw [h4.cells k]; simp⟩
+
+/-- **`size_hint`** (the default, `(0, None)`) is a valid bound for any number of items that
+follow -/
+theorem C17_size_hint_valid (t : MetaTable) (it : MIter) (n : Nat) :
+    (t.sizeHint it).1 ≤ n ∧ ∀ h, (t.sizeHint it).2 = some h → n ≤ h := by
+  refine ⟨Nat.zero_le n, ?_⟩
+  intro h hh
+  cases hh
+
+/-! ### Non-vacuity: the provided methods on the concrete history and world above -/
+
+-- `exWorld` is usable by both iterators under the lawful cast
+example : Usable lawfulCast [3, 1, 3, 2, 1, 3] exWorld false ∧ Usable lawfulCast [3, 1, 3, 2, 1, 3] exWorld true := by
+  constructor <;>
+  · apply C17_usable_free
+    · intro ty c hc
+      simp only [exWorld, MWorld.insert, MWorld.set, MWorld.empty] at hc
+      split at hc
+      · cases hc; rfl
+      · split at hc
+        · cases hc; rfl
+        · split at hc
+          · cases hc; rfl
+          · cases hc
+    · intro _ _ _; rfl
+
+-- types 3, 1, 2, 5, 7 registered (first-registration order), 1, 2 and 7 present: L = [1, 2, 7]
+example :
+    let t := ({} : MetaTable).registerAll [3, 1, 3, 2, 5, 1, 7]
+    -- nth(1) is the second registered-and-present type, not the second registered one; only its
+    -- cell is borrowed; then the iterator goes on behind it
+    (t.nth lawfulCast exWorld (t.iter false) 1).2.2 = .item ⟨200, 2⟩ ∧
+    (t.nth lawfulCast exWorld (t.iter true) 1).1.cell 1 = some ⟨100, .free⟩ ∧
+    (t.nth lawfulCast exWorld (t.iter true) 1).1.cell 2 = some ⟨200, .excl⟩ ∧
+    (t.nth lawfulCast exWorld (t.iter false) 2).2.2 = .item ⟨700, 7⟩ ∧
+    (t.nth lawfulCast exWorld (t.iter false) 3).2.2 = .none ∧
+    (t.next lawfulCast exWorld (t.nth lawfulCast exWorld (t.iter false) 1).2.1).2.2 = .item ⟨700, 7⟩ ∧
+    -- skip(1), step_by(2), take(2), last, count
+    (collectVia lawfulCast t false 6 (.skip 1) exWorld 0 []).kept.map (·.1) = [2, 7] ∧
+    (collectVia lawfulCast t false 6 (.stepBy 1 true) exWorld 0 []).kept.map (·.1) = [1, 7] ∧
+    (collectVia lawfulCast t true 6 (.take 2) exWorld 0 []).kept.map (·.1) = [1, 2] ∧
+    (collectVia lawfulCast t true 6 (.take 2) exWorld 0 []).index = 3 ∧
+    (lastVia lawfulCast t true 6 .plain exWorld 0 none 0).kept = [(7, ⟨700, 7⟩)] ∧
+    (lastVia lawfulCast t true 6 .plain exWorld 0 none 0).world.cell 2 = some ⟨200, .free⟩ ∧
+    (countVia lawfulCast t true 6 (.skip 1) exWorld 0 0).seen = 2 := by
+  decide
+
+-- `iter().zip(iter())`: legal, every cell shared twice; `iter_mut().zip(iter())` panics at once
+-- and leaves nothing behind (`x` is dropped by the unwinding)
+example :
+    let t := ({} : MetaTable).registerAll [3, 1, 3, 2, 5, 1, 7]
+    (zipN lawfulCast t false false 6 exWorld 0 0 []).pairs.map (fun p => (p.1.1, p.2.1)) = [(1, 1), (2, 2), (7, 7)] ∧
+    (zipN lawfulCast t false false 6 exWorld 0 0 []).world.cell 2 = some ⟨200, .shared 2⟩ ∧
+    (zipN lawfulCast t true false 6 exWorld 0 0 []).panic = some .borrowed ∧
+    (zipN lawfulCast t true false 6 exWorld 0 0 []).pairs = [] ∧
+    (zipN lawfulCast t true false 6 exWorld 0 0 []).world.cell 1 = some ⟨100, .free⟩ := by
+  decide
+
+-- a conflicting guard in the skipped range: the default `nth` panics there
+example :
+    let t := ({} : MetaTable).registerAll [3, 1, 3, 2, 5, 1, 7]
+    (t.nth lawfulCast (exWorld.acquire 1 true).1 (t.iter false) 1).2.2 = .panic .borrowed := by
+  decide
+
 #print axioms C17_inv
 #print axioms C17_inv_step
 #print axioms C17_register_in_bounds
@@ -528,5 +867,18 @@ example :
 #print axioms C17_iter_once_each
 #print axioms C17_iter_free_world
 #print axioms C17_collect_fuel
+#print axioms C17_usable_drivable
+#print axioms C17_usable_free
+#print axioms C17_nth_zero
+#print axioms C17_nth_spec
+#print axioms C17_nth_kth_present
+#print axioms C17_nth_conflict_panics
+#print axioms C17_collect_via_spec
+#print axioms C17_skip_spec
+#print axioms C17_take_spec
+#print axioms C17_step_by_spec
+#print axioms C17_last_spec
+#print axioms C17_count_spec
+#print axioms C17_size_hint_valid
 end Meta
 end Shred
